@@ -618,4 +618,31 @@ theorem legStepTune_spec {ι : Type} (width : Nat) (step : St → ι → St × L
 example : legStepTune 1 (stepLeaf .legMH false) ⟨[0], fin 0, [], [1/2]⟩ ⟨[1], [fin (-1)], [fin (-1/2)], [], 0⟩ 0
     = some [1/2] := by decide +kernel
 
+/-! ### non-finite points inside sessions (pCN with `scale > 1` within a history) -/
+
+/-- On real points with a defined contraction, and for every non-pCN kernel, the extended transition the
+    session ops fold over is `stepLeaf`. -/
+theorem stepLeafX_eq_stepLeaf (k : Kernel) (b : Bool) (st : St) (inp : Inp)
+    (h : (k ≠ .expPCN ∧ k ≠ .legPCN) ∨ (st.x ≠ nanPoint ∧ pcnContractionDefined (scalar st) = true)) :
+    stepLeafX k b st inp = stepLeaf k b st inp := by
+  rcases h with ⟨h1, h2⟩ | ⟨h1, h2⟩
+  · cases k <;> simp_all [stepLeafX]
+  · cases k <;> simp [stepLeafX, h1, h2]
+
+/-- **Inside any history, pCN with `scale > 1` (or at a NaN point) is the identity on an arithmetic
+    likelihood** (NaN at the NaN proposal): point, cache, gradient and scale are unchanged and the accept
+    row is `[0]`, for every cached value and every uniform draw. -/
+theorem stepLeafX_nan_identity (k : Kernel) (hk : k = .expPCN ∨ k = .legPCN) (b : Bool) (st : St) (inp : Inp)
+    (hs : st.x = nanPoint ∨ pcnContractionDefined (scalar st) = false) (ht : inp.ts.headD nan = nan) :
+    stepLeafX k b st inp = (st, [false]) := by
+  rcases hk with rfl | rfl <;> simp only [stepLeafX, hs, if_true] <;> rw [ht, pcnNanStep_identity] <;> simp
+
+/-- The NaN point is absorbing for pCN: whatever is accepted from it is again the NaN point. -/
+theorem stepLeafX_nanPoint_absorbing (k : Kernel) (hk : k = .expPCN ∨ k = .legPCN) (b : Bool) (st : St) (inp : Inp)
+    (hx : st.x = nanPoint) : (stepLeafX k b st inp).1.x = nanPoint := by
+  rcases hk with rfl | rfl <;> simp only [stepLeafX, hx, true_or, if_true] <;> split <;> rfl
+
+example : stepLeafX .expPCN false ⟨[1, 2], fin (-1), [], [3/2]⟩ ⟨[1, 1], [fin (-1/2)], [nan], [], 0⟩
+    = (⟨[1, 2], fin (-1), [], [3/2]⟩, [false]) := by decide +kernel
+
 end CuqiVerif.C02
